@@ -83,6 +83,7 @@ func (s *stdSvc) runResponse(rc respCase) (*respResult, error) {
 	send := func(b []byte) error { return rc.sender.sendUDP(l.Addr, l.UDPPort, b) }
 	res := &respResult{}
 	res.Hop, res.Ok = s.model.responseHop(rc.Msg.Vias())
+	s.in.expect(rc.Msg.Bytes())
 	if err := send(rc.Msg.Bytes()); err != nil {
 		return nil, err
 	}
